@@ -35,8 +35,9 @@ def mkTable (env : Env) (parts : List String) (alias : Option String) : DObj :=
   let schema :=
     if quals.isEmpty then defaultSchema env
     else
+      -- every part is normalised once and the joined name is kept (`schema.raw_name = parent_name`)
       let parent := ".".intercalate (quals.map Ident.escapeS)
-      if parent != "" then Ident.escapeS parent else defaultSchema env
+      if parent != "" then parent else defaultSchema env
   let raw := Ident.escapeS name
   ⟨.table schema raw, some (Ident.escapeS (alias.getD raw))⟩
 
@@ -217,7 +218,9 @@ def tablesOfFrom (env : Env) (g : LGraph) (frm : List FromExpr) : List DObj :=
     -- no top‑level join and a select inside ⇒ `list_join_clause` returns [] (utils.py:91‑100); with no join and no select
     -- inside there is nothing to find either
     datasetOfElem env g base ++ (if js.isEmpty then [] else cdFromExpr env g (.mk base js))
-  | many => many.flatMap (fun fe => match fe with | .mk base _ => datasetOfElem env g base)   -- SQL‑89 branch
+  -- SQL‑89 comma list: every from‑expression is handled like a single one (its base element, then its join clauses)
+  | many => many.flatMap (fun fe => match fe with
+      | .mk base js => datasetOfElem env g base ++ (if js.isEmpty then [] else cdFromExpr env g (.mk base js)))
 
 /-- tables, columns and union barriers of the branches, then `end_of_query_cleanup` and `expand_wildcard` -/
 def finishBranches (env : Env) (g : LGraph) (branches : List (List Item × List FromExpr)) : Except Err LGraph :=
@@ -409,16 +412,17 @@ def sqParenChain (env : Env) : Expr → Option String → LGraph → Except Err 
     (match sqParenChain env e alias g with | .error x => .error x | .ok p => .ok (true, p.2))
   | _, _, g => .ok (false, g)
 
-/-- derived tables of the FROM clause (`list_subqueries`, from_clause / from_expression branches).  `multi`: the SQL‑89
-    branch looks at the first element of each from‑expression only; otherwise the base element and the element of every
-    join clause found by the deep crawl (only performed when there is a top‑level join). -/
+/-- derived tables of the FROM clause (`list_subqueries`, from_clause / from_expression branches): for every
+    from‑expression the base element and the element of every join clause found by the deep crawl (only performed when
+    the from‑expression has a top‑level join).  `multi` (more than one from‑expression) no longer makes a difference
+    since the D1 repair; the parameter is kept for the callers. -/
 def sqFrom (env : Env) (multi : Bool) : List FromExpr → LGraph → Except Err LGraph
   | [], g => .ok g
   | .mk base js :: r, g =>
     (match sqElem env base g with
       | .error x => .error x
       | .ok g' =>
-        (match (if multi || js.isEmpty then Except.ok g' else
+        (match (if js.isEmpty then Except.ok g' else
                   (match cjElem env base g' with | .error x => .error x | .ok g'' => cjJoins env js g'')) with
           | .error x => .error x
           | .ok g'' => sqFrom env multi r g''))
